@@ -91,6 +91,7 @@ type pair struct {
 func newPair(t *rapid.T, typ uint16) (*pair, error) {
 	p := &pair{}
 	var err error
+	cl := gen.NewClients() // both outstanding requests come from ONE client object of the type
 	switch typ {
 	case 1, 5:
 		suite := oprf.SuiteP384
@@ -99,12 +100,12 @@ func newPair(t *rapid.T, typ uint16) (*pair, error) {
 		}
 		key := gen.OPRFKey(suite, gen.Seed().Draw(t, "keyseed"))
 		other := gen.OPRFKey(suite, append(gen.Seed().Draw(t, "otherkeyseed"), 1))
-		if p.a, err = gen.NewSession(t, typ, gen.SessionOpts{OKey: key, MaxBatch: 5}); err != nil {
+		if p.a, err = gen.NewSession(t, typ, gen.SessionOpts{OKey: key, MaxBatch: 5, Clients: cl}); err != nil {
 			return nil, err
 		}
 		// same batch size for b (so that a cross-wired response is not rejected for its count alone)
 		for {
-			if p.b, err = gen.NewSession(t, typ, gen.SessionOpts{OKey: key, MaxBatch: 5}); err != nil {
+			if p.b, err = gen.NewSession(t, typ, gen.SessionOpts{OKey: key, MaxBatch: 5, Clients: cl}); err != nil {
 				return nil, err
 			}
 			if len(p.b.Nonces) == len(p.a.Nonces) {
@@ -124,10 +125,10 @@ func newPair(t *rapid.T, typ uint16) (*pair, error) {
 		}
 	case 2:
 		idx := gen.RSAKey().Draw(t, "rsakey")
-		if p.a, err = gen.NewSession(t, 2, gen.SessionOpts{RKeyIdx: idx}); err != nil {
+		if p.a, err = gen.NewSession(t, 2, gen.SessionOpts{RKeyIdx: idx, Clients: cl}); err != nil {
 			return nil, err
 		}
-		if p.b, err = gen.NewSession(t, 2, gen.SessionOpts{RKeyIdx: idx}); err != nil {
+		if p.b, err = gen.NewSession(t, 2, gen.SessionOpts{RKeyIdx: idx, Clients: cl}); err != nil {
 			return nil, err
 		}
 		r := new(type2.BasicPublicTokenRequest)
@@ -149,6 +150,10 @@ func newPair(t *rapid.T, typ uint16) (*pair, error) {
 			return nil, fmt.Errorf("NewRateLimitedIssuer returned nil")
 		}
 		origin := gen.OriginName().Draw(t, "origin")
+		var secret3 []byte
+		if rapid.Bool().Draw(t, "sameType3Client") {
+			secret3 = gen.P384KeyBytes().Draw(t, "clientSecret")
+		}
 		if err := issA.AddOrigin(origin); err != nil {
 			return nil, err
 		}
@@ -158,10 +163,10 @@ func newPair(t *rapid.T, typ uint16) (*pair, error) {
 		if !bytes.Equal(issA.NameKey().Marshal(), issB.NameKey().Marshal()) {
 			return nil, fmt.Errorf("harness: could not build two issuers with one name key")
 		}
-		if p.a, err = gen.NewSession(t, 3, gen.SessionOpts{Issuer3: issA, RKeyIdx: idx, Origin: &origin}); err != nil {
+		if p.a, err = gen.NewSession(t, 3, gen.SessionOpts{Issuer3: issA, RKeyIdx: idx, Origin: &origin, Clients: cl, ClientSecret: secret3}); err != nil {
 			return nil, err
 		}
-		if p.b, err = gen.NewSession(t, 3, gen.SessionOpts{Issuer3: issA, RKeyIdx: idx, Origin: &origin}); err != nil {
+		if p.b, err = gen.NewSession(t, 3, gen.SessionOpts{Issuer3: issA, RKeyIdx: idx, Origin: &origin, Clients: cl, ClientSecret: secret3}); err != nil {
 			return nil, err
 		}
 		p.foreignKeyResp, _, _ = issB.Evaluate(p.a.RequestBytes)
@@ -232,9 +237,19 @@ func runType(t *testing.T, typ uint16, quickRuns, thoroughRuns, perRun int) {
 			t.Fatalf("harness health: honest set-up failed (C01's business): %v", err)
 		}
 		honest := p.respA
-		// health: the honest response is accepted (guards against a vacuous 'rejects everything')
-		if toks, err := p.a.Finalize(append([]byte{}, honest...)); err != nil || p.a.CheckTokens(toks) != nil {
-			t.Fatalf("harness health: honest response not accepted: %v", err)
+		// the honest response is accepted (guards against a vacuous 'rejects everything') and - with a second request
+		// of the same client outstanding - yields a token that is valid for THIS request
+		toks, err := p.a.Finalize(append([]byte{}, honest...))
+		if err != nil {
+			t.Fatalf("harness health: honest response not accepted (C01's business): %v", err)
+		}
+		if cerr := p.a.CheckTokens(toks); cerr != nil {
+			rt.Fail(t, fmt.Sprintf("C02/%s/honest/invalid-token", gen.TypeName(typ)), "with two requests of one client outstanding, finalizing the first with its own honest response returned no error but a token that is not valid for it: %v", cerr)
+			return
+		}
+		if toksB, err := p.b.Finalize(append([]byte{}, p.respB...)); err != nil || p.b.CheckTokens(toksB) != nil {
+			rt.Fail(t, fmt.Sprintf("C02/%s/honest/invalid-token", gen.TypeName(typ)), "second outstanding request of the client does not finalize to a valid token: %v %v", err, p.b.CheckTokens(toksB))
+			return
 		}
 		s.Class("honest-accepted")
 		// MUST-REJECT: foreign key, cross-wired
@@ -255,7 +270,7 @@ func runType(t *testing.T, typ uint16, quickRuns, thoroughRuns, perRun int) {
 				cut := gen.Uniform(t, len(honest), "cut")
 				finalize(t, s, p.a, honest[:cut], "truncate", false, honest)
 			case k == 6:
-				ext := rapid.SliceOfN(rapid.Byte(), 1, 40).Draw(t, "ext")
+				ext := gen.Bytes(t, 1, 40, "ext")
 				finalize(t, s, p.a, append(append([]byte{}, honest...), ext...), "extend", false, honest)
 			case k == 7:
 				switch gen.Uniform(t, 3, "degenerate") {
